@@ -2,7 +2,9 @@ import Driver.Proto
 namespace Driver.C18
 
 /-- `fn`, `rdz`, `dslr`: laws on the implementation only — whatever the argument kinds, bytes or
-tokens, the outcome is a result or a reported error; never a panic, never a hang. -/
+tokens, the outcome is a result or a reported error; never a panic, never a hang. (The harness
+reports `loops`, which is allowed, when a generated program that did not end contains a `while`,
+`do`-`while` or C-style `for` of its own: that is the program's non-termination.) -/
 def noCrash : Handler
   | _, impl =>
     some { model := impl, unmodelled := true,
